@@ -19,8 +19,8 @@ import (
 
 const (
 	MaxTasks  = 16
-	maxLocks  = 1 << 14 // open-addressed table of mutex addresses
-	maxOnces  = 1 << 12
+	maxLocks  = 1 << 17 // open-addressed table of mutex addresses
+	maxOnces  = 1 << 16
 	maxWGs    = 1 << 8
 	logCap    = 1 << 21 // schedule decisions kept per run
 	switchCap = 1 << 16 // (task,site) pairs at which a switch happened, kept for the trace
@@ -90,6 +90,7 @@ type world struct {
 	ntasks   uint32
 	mainWord uint32 // futex word main waits on
 	done     uint32 // 1 = all finished, 2 = deadlock
+	overflow uint32 // a table of the simulator was full: the run is not a valid simulation
 	_        uint32
 
 	rng      uint64
